@@ -1,4 +1,4 @@
-import B6.Lemmas.CompactIndexLookup
+import B6.Lemmas.CompactIndexEachSound
 /-!
 # C01 — the compact index round-trips every feature it accepts
 
@@ -21,11 +21,14 @@ What is proved, for ALL strings tables, namespace tables, ids (every 64-bit valu
 * `primary_agree`: for every (record, field) the primary namespace the writer marshals against is the one
   the reader unmarshals against (table transcribed from build.go / encoding.go / world.go; `by decide`).
 
-* `find_routed`: `FindFeatureByID` returns the reader's view of the entry of the one block that routes.
+* **index level**: `compact_find_roundtrip` — for every accepted source, if the build succeeds then every
+  feature is found by its id in canonical form (`record_placement`, `find_routed` are its halves).
 
-What is not proved and stays visible as a statement: `compact_roundtrip_statement` (the index level: the build
-succeeds on `Accepts` and puts every record in the one block that routes, ids distinct within it; `each` a
-duplicate free permutation).  It is carried by
+* `each_enumerates_every_feature`, `each_enumerates_only_features`: the set of ids `EachFeature` reports is the
+  set of ids of the source.
+
+What is not proved and stays visible as a statement: the other conjuncts of `compact_roundtrip_statement` —
+that `Accepts` implies the build succeeds, and that `each` reports no id twice.  It is carried by
 the correspondence run, which compares every block byte for byte and every `find` / `each` answer, and by a
 kernel-checked concrete index (`exRoundTrips`).
 
@@ -151,6 +154,57 @@ theorem find_routed (ix : Index) (id : FID) (n : Nat) (hn : nsEncode ix.nt id.ns
     (h : Holds b id e) : find ix id = some (decodeFeature ix.strs ix.nt b.hdr id e.data) :=
   find_of_block ix id n hn b e hroute h
 
+/-! ## the round trip through a built index -/
+
+/-- **`compact_roundtrip`, lookup half** — for every source `fs` in the decidable domain `Accepts` and every
+string table, IF the build succeeds then EVERY feature of the source (point, path, area, relation; any namespace,
+any 64-bit id) is found by its id, and what the reader returns is the canonical form of the source feature: same
+keys, values and value kinds, same point sequence / references (clockwise closed paths as the builder inverts
+them), same polygons, same members.  Composition of: where `build` puts the records (`placed`, the scratch pass
+and `combinePoints` for points), routing of `FindFeatureByID` to the one block that carries the id's namespace,
+lookup among distinct ids, and the record theorems above. -/
+theorem compact_find_roundtrip (strs : List Str) (fs : List Feature) (ix : Index) (hbuild : build strs fs = .ok ix)
+    (hacc : Accepts strs fs = true) : ∀ f ∈ fs, find ix f.id = some (some (canon fs f)) := by
+  intro f hf
+  have hOK := (accepts_facts strs fs hacc).ok f hf
+  unfold featureOK at hOK
+  simp only [Bool.and_eq_true, decide_eq_true_eq] at hOK
+  have ht : f.id.typ < 4 := hOK.1.1.2
+  by_cases h0 : f.id.typ = 0
+  · exact find_point strs fs ix hbuild hacc f hf h0
+  · exact find_kept strs fs ix hbuild hacc f hf (by omega)
+
+/-- **`EachFeature` is complete**: under the same hypotheses every feature's id — true type, namespace and
+value — is enumerated.  (That nothing is enumerated twice is NOT proved; the correspondence run checks the
+enumeration is a duplicate free permutation of the kept ids.) -/
+theorem each_enumerates_every_feature (strs : List Str) (fs : List Feature) (ix : Index)
+    (hbuild : build strs fs = .ok ix) (hacc : Accepts strs fs = true) : ∀ f ∈ fs, f.id ∈ each ix :=
+  fun f hf => each_complete strs fs ix hbuild hacc f hf
+
+/-- **`EachFeature` is sound**: whatever a successfully built index enumerates is the id of a feature of the
+source (distinct ids not even needed) — with `each_enumerates_every_feature`: the *set* of enumerated ids is
+exactly the set of source ids. -/
+theorem each_enumerates_only_features (strs : List Str) (fs : List Feature) (ix : Index)
+    (hbuild : build strs fs = .ok ix) (hsmall : (nsTable fs).length ≤ 8192) : ∀ x ∈ each ix, ∃ f ∈ fs, f.id = x :=
+  each_sound strs fs ix hbuild hsmall
+
+/-- paths, areas and relations only (no use of the point passes) -/
+theorem compact_find_roundtrip_non_points (strs : List Str) (fs : List Feature) (ix : Index)
+    (hbuild : build strs fs = .ok ix) (hacc : Accepts strs fs = true) (f : Feature) (hf : f ∈ fs)
+    (ht : f.id.typ = 1 ∨ f.id.typ = 2 ∨ f.id.typ = 3) : find ix f.id = some (some (canon fs f)) :=
+  find_kept strs fs ix hbuild hacc f hf ht
+
+/-- where the builder puts the record of a kept path / area / relation: one block of its type carries its
+encoded namespace, every block that does is that block, and the block holds the id once, under `NoTag` -/
+theorem record_placement (strs : List Str) (fs : List Feature) (ix : Index) (c : Ctx) (hb : Built strs fs ix c)
+    (hsmall : (nsTable fs).length ≤ 8192) (hdist : idsDistinct fs = true)
+    (f : Feature) (hf : f ∈ fs) (ht : f.id.typ = 1 ∨ f.id.typ = 2 ∨ f.id.typ = 3) (hk : kept fs f = true) :
+    ∃ n b e, nsEncode ix.nt f.id.ns = some n ∧ b ∈ ix.blocks ∧ b.typ = f.id.typ ∧ b.hdr = blockHeader c f.id.typ n ∧
+      (∀ b' ∈ ix.blocks, b'.typ = f.id.typ → nssGet b'.hdr f.id.typ = ns16 n → b' = b) ∧
+      e ∈ b.entries ∧ e.id = f.id.val ∧ e.tag = 0#64 ∧ recordOf c fs f.id.typ (validated fs f) = .ok e.data ∧
+      (∀ e' ∈ b.entries, e'.id = f.id.val → e' = e) :=
+  placed strs fs ix c hb hsmall hdist f hf ht hk
+
 /-! ## a concrete index (non-vacuity of everything above, and a test of the statements below) -/
 
 def nsCustom : Str := [97, 47, 98]   -- "a/b"
@@ -186,7 +240,11 @@ example : exRoundTrips = true := by decide +kernel
 /-! ## statements carried by the correspondence run (NOT proved) -/
 
 /-- **the property**: on every accepted feature set the build succeeds, every feature is found by its id as
-its canonical form, and `each` enumerates every id exactly once. -/
+its canonical form, and `each` enumerates every id exactly once.  `compact_find_roundtrip` proves the middle
+conjunct under the hypothesis that the build succeeded; NOT proved: that `Accepts` implies the build succeeds
+(no `Lookup` / `Encode` / `EncodeValueType` / "No builder" panic), and of the two `each` conjuncts only that the
+enumerated *set* is the set of source ids (`each_enumerates_every_feature`, `each_enumerates_only_features`), not
+that no id is reported twice. -/
 def compact_roundtrip_statement : Prop :=
   ∀ (strs : List Str) (fs : List Feature), Accepts strs fs = true →
     ∃ ix, build strs fs = .ok ix ∧
